@@ -32,6 +32,11 @@ import numpy as np
 from . import sitegen as sg
 from .lib import CoqFailure, coq_Z, coq_list, coq_nat
 
+# A user cell (noreduce) can be sheared so strongly that a zone facet needs a reciprocal coefficient beyond 3 (genBZG's
+# historical candidate range, finding in design_notes/C22.md).  Such cells are judged like every other cell (violation keys
+# c22-*-candidate-range-3); setting this flag to False would count and skip them instead.
+JUDGE_BEYOND_RANGE3 = True
+
 IMPORTS = """From Coq Require Import List ZArith.
 From Onsager Require Import Model.Geom3 Model.KMesh.
 Import ListNotations.
@@ -59,6 +64,47 @@ def lexmin_class(Ts, n, dim):
         m = tuple([sum(T[i][j] * n[j] for j in range(dim)) for i in range(dim)] + [0] * (3 - dim))
         if m < best: best = m
     return best
+
+
+def exact_facets(m6, dim):
+    """Voronoi-relevant reciprocal lattice vectors (h/2 strictly closer to 0 than to any other lattice point), exact.
+    A relevant h has |h| <= 2 * covering radius <= sum_i |b_i|, and (sum_i |b_i|)^2 <= dim * sum_i Q_ii =: c; all h with
+    Q(h) <= c lie in the box certified by the Cauchy-Schwarz range certificate (Geom3.range_okb), any coefficients."""
+    c = dim * sum(m6[:dim]) + 1
+    m = list(m6)
+    if dim == 2: m[2] = max(m[2], c + 1)
+    m = tuple(m)
+    hb = sg.min_box6(m, 1, c + 1, (0, 0, 0), dim)
+    cand = [h for h in itertools.product(*[range(-a, a + 1) for a in hb]) if any(h) and sg.bil6(m, h, h) <= c]
+    H = np.array(cand, dtype=object)
+    g11, g22, g33, g23, g13, g12 = m
+    QM = np.array([[g11, g12, g13], [g12, g22, g23], [g13, g23, g33]], dtype=object)
+    M = H.dot(QM).dot(H.T)
+    q = np.array([M[i, i] for i in range(len(cand))], dtype=object)
+    out = set()
+    for i, h in enumerate(cand):
+        row = M[i]
+        if all(row[j] < q[j] for j in range(len(cand)) if j != i): out.add(h)
+    return out
+
+
+def sheared_noreduce(crys, rng, via_dict):
+    """the same crystal described in a NON-reduced cell (unimodular shear of the lattice vectors, positions transformed
+    accordingly), constructed with noreduce=True (the default of Crystal.fromdict / YAML input)"""
+    from onsager import crystal
+    dim = crys.dim
+    M = np.eye(dim, dtype=int)
+    nsh = rng.choice([1, 2])
+    for _ in range(nsh):
+        i, j = rng.sample(range(dim), 2)
+        E = np.eye(dim, dtype=int); E[i, j] = rng.choice([1, -1, 2, -2, 3] if nsh == 1 else [1, -1, 2, -2])
+        M = M @ E
+    A2 = crys.lattice @ M
+    Mi = np.array(sg.int_inverse(M.tolist()))
+    basis = [[crystal.incell(Mi @ u) for u in lst] for lst in crys.basis]
+    if via_dict:
+        return crystal.Crystal.fromdict({"lattice": A2.T, "basis": basis}), M
+    return crystal.Crystal(A2, basis, noreduce=True), M
 
 
 def mesh_case(ck, rng, label, crys, ex, Nmesh):
@@ -121,14 +167,18 @@ def mesh_case(ck, rng, label, crys, ex, Nmesh):
     # implementation's own inBZ on every mesh point, and its BZG against the exact Voronoi-relevant vectors
     res["self_inbz_false"] = sum(1 for k in kfull0 if not crys.inBZ(k))
     res["inbz_wrong"] = [i for i, (k, n) in enumerate(zip(kfull0, full)) if bool(crys.inBZ(k)) != inbz(n)][:5]
-    nz = [tuple(list(h) + [0] * (3 - dim)) for h in itertools.product(range(-3, 4), repeat=dim) if any(h)]   # the code's candidate range
-    qq = {h: sg.bil6(m6, h, h) for h in nz}
-    relevant = set(h for h in nz if all(sg.bil6(m6, h, h2) < qq[h2] for h2 in nz if h2 != h))
+    relevant = exact_facets(m6, dim)
     impl_bzg = set()
     for Gh in crys.BZG:
         f = np.dot(crys.lattice.T, 2 * Gh) / (2 * np.pi)
         impl_bzg.add(tuple([int(round(x)) for x in f] + [0] * (3 - dim)))
     res["bzg_exact"] = len(relevant); res["bzg_ok"] = (impl_bzg == relevant)
+    res["facets_beyond3"] = any(max(abs(x) for x in h) > 3 for h in relevant)
+    Tset = set(tuple(map(tuple, T)) for T in Ts)
+    res["group_closed"] = all(tuple(tuple(sum(a[i][k] * b[k][j] for k in range(dim)) for j in range(dim)) for i in range(dim)) in Tset
+                              for a in Tset for b in Tset)
+    res["bzg_missing"] = sorted(relevant - impl_bzg)[:4]
+    res["bzg_missing_all"] = sorted(relevant - impl_bzg)
     # ---- invariant shell functions in floats ------------------------------------------------
     ferr = 0.0; fbad = None
     for rep in range(4):
@@ -174,23 +224,30 @@ def report(ck, res, coq):
     if "error" in res:
         ck.violation("fullkptmesh/reducekptmesh(%s, Nmesh=%s): %s" % (res["label"], res["Nmesh"], res["error"]), rep, key="c22-malformed"); return
     bad = []
-    cause = "fold-single-pass" if res["bzg_ok"] else "bzg-incomplete"
+    miss_all = res.get("bzg_missing_all", [])
+    beyond3 = bool(miss_all) and all(max(abs(x) for x in h) > 3 for h in miss_all)
+    cause = "fold-single-pass" if not miss_all and res["bzg_ok"] else ("bzg-candidate-range-3" if beyond3 else "bzg-incomplete")
     if res["full_out"]: bad.append(("c22-full-mesh-outside-BZ-" + cause, "full-mesh point(s) %s lie outside the first Brillouin zone (BZG has %d vectors, the Brillouin zone %d facets)" % (res["full_out"], res["BZG"], res["bzg_exact"])))
     if res["red_out"]: bad.append(("c22-reduced-mesh-outside-BZ-" + cause, "reduced-mesh point(s) %s lie outside the first Brillouin zone" % res["red_out"]))
+    if res["bzg_missing"]: bad.append(("c22-bzg-incomplete" + ("-candidate-range-3" if beyond3 else ""), "BZG lacks the zone facet(s) G = B.%s (BZG has %d vectors, the Brillouin zone %d facets)" % (res["bzg_missing"], res["BZG"], res["bzg_exact"])))
     if res["inbz_wrong"]: bad.append(("c22-inBZ-wrong-" + cause, "inBZ() disagrees with exact Brillouin-zone membership for full-mesh point(s) %s (BZG has %d vectors, the Brillouin zone %d facets)" % (res["inbz_wrong"], res["BZG"], res["bzg_exact"])))
-    if res["bad_weight"] or res["dup_reps"] or res["uncovered"]:
+    closed = res.get("group_closed", True)     # crys.G not closed under multiplication (C18, non-reduced cells): orbits undefined
+    if closed and (res["bad_weight"] or res["dup_reps"] or res["uncovered"]):
         bad.append(("c22-wrong-weights", "weights are not the orbit multiplicities: (index, count, exact) %s; equivalent representatives %d; classes without representative %d" %
                     (res["bad_weight"], res["dup_reps"], res["uncovered"])))
-    if res["werr"] > 1e-12 or abs(res["wsum"] - 1) > 1e-12 or res["wmin"] <= 0:
+    if closed and (res["werr"] > 1e-12 or abs(res["wsum"] - 1) > 1e-12 or res["wmin"] <= 0):
         bad.append(("c22-weights-float", "weights are not positive multiples of 1/N summing to one (max dev %.2g, sum-1 %.2g, min %.2g)" % (res["werr"], res["wsum"] - 1, res["wmin"])))
-    if res["ferr"] > 1e-10:
+    if closed and res["ferr"] > 1e-10:
         bad.append(("c22-invariant-function", "shell function R0=%s: full-mesh mean %.15g, reduced %.15g" % res["fbad"]))
     for key, what in bad:
         ck.violation("%s Nmesh=%s: %s" % (res["label"], res["Nmesh"], what), rep, key=key)
     if coq is not None:
         code = coq[0]
         if code == 1: raise RuntimeError("harness certificate rejected by the Coq model: %s" % rep)
-        exact_bad = bool(res["full_out"] or res["red_out"] or res["bad_weight"] or res["dup_reps"] or res["uncovered"])
+        exact_bad = bool(res["full_out"] or res["red_out"] or (closed and (res["bad_weight"] or res["dup_reps"] or res["uncovered"])))
+        if not closed and code == 4: code = 0; coq = (0, res["nclasses"])
+        bad = [b for b in bad if not b[0].startswith("c22-bzg-incomplete") and not b[0].startswith("c22-inBZ-wrong")
+               and b[0] not in ("c22-weights-float", "c22-invariant-function")]
         if (code != 0) != exact_bad or (code == 0 and coq[1] != res["nclasses"]):
             ck.violation("Coq decision (%s: %s) and the Python evaluator (%s) disagree" % (coq, MEANING.get(code, "ok"), [b[0] for b in bad]), rep, key="c22-model-evaluator-disagree")
 
@@ -205,7 +262,8 @@ def choose_mesh(rng, dim, quick):
 
 def run(ck):
     ck.rule = ("crystal pool (named lattices + random crystal systems incl. hexagonal/monoclinic/triclinic/skewed, 2-D/3-D, 1-3 sites, "
-               "lattice scale 0.5..5) x Nmesh (even / odd / anisotropic, 2..20 per direction); distinct = distinct (crystal, Nmesh); "
+               "lattice scale 0.5..5; plus NON-reduced cells kept by noreduce=True / Crystal.fromdict: unimodular shears of pool crystals and three "
+               "fixed sheared cells) x Nmesh (even / odd / anisotropic, 2..20 per direction); distinct = distinct (crystal, Nmesh); "
                "non-trivial = at least 4 mesh points and 2 reduced points")
     ck.trusted += ["harness/c22.py, sitegen.py: exact read-back of the metric, conversion of k-points to integer reciprocal-lattice coordinates "
                    "(verified rounding), weights to counts (1e-12), Coq literal printing",
@@ -217,6 +275,35 @@ def run(ck):
     for label, crys, chem, ex in sg.pool(rng, n, random_frac=0.75, nchem_max=1, maxatoms=3, scales=(1.0, 1.0, 0.5, 2.0, 3.0, 5.0), skew_frac=0.15):
         Nmesh = choose_mesh(rng, crys.dim, ck.quick)
         cases.append(mesh_case(ck, rng, label, crys, ex, Nmesh))
+    # crystals that keep the user's NON-reduced cell (noreduce=True / Crystal.fromdict): sheared descriptions of pool crystals
+    from onsager import crystal as _crystal
+    nnr = ck.n(10, 50)
+    srcs = [("oblique-a2=(1.6,1)", lambda: _crystal.Crystal(np.array([[1., 0.], [1.6, 1.]]).T, [np.zeros(2)], noreduce=True)),
+            ("fcc-a3+a1+a2", lambda: _crystal.Crystal(0.5 * np.array([[0, 1, 1], [1, 0, 1], [2, 2, 2.]]).T, [np.zeros(3)], noreduce=True)),
+            ("triclinic-very-long-a3", lambda: _crystal.Crystal.fromdict({"lattice": np.array([[1, 0, 0], [.2, 1.1, 0], [2.3, 1.25, 1.2]]), "basis": [np.zeros(3)]})),
+            ("triclinic-long-a3", lambda: _crystal.Crystal.fromdict({"lattice": np.array([[1, 0, 0], [.2, 1.1, 0], [1.5, 1.25, 1.2]]), "basis": [np.zeros(3)]}))]
+    found = 0
+    beyond3 = 0
+    for label, make in srcs:
+        c2 = make(); ex2 = sg.Exact(c2)
+        if not ex2.ok: raise RuntimeError("noreduce crystal %s is not rational" % label)
+        cases.append(mesh_case(ck, rng, "noreduce-" + label, c2, ex2, choose_mesh(rng, c2.dim, ck.quick))); found += 1
+    for label, crys, chem, ex in sg.pool(rng, 3 * nnr, random_frac=0.8, nchem_max=1, maxatoms=2, scales=(1.0, 1.0, 2.0, 3.0), skew_frac=0.15):
+        if found >= nnr: break
+        try:
+            c2, M = sheared_noreduce(crys, rng, via_dict=rng.random() < 0.5)
+        except Exception as e:
+            ck.note("constructing a sheared noreduce description failed (%s: %s) -- skipped" % (type(e).__name__, str(e)[:80])); continue
+        ex2 = sg.Exact(c2)
+        if not ex2.ok: continue
+        res = mesh_case(ck, rng, "noreduce-" + label, c2, ex2, choose_mesh(rng, c2.dim, ck.quick))
+        if res.get("facets_beyond3") and not JUDGE_BEYOND_RANGE3:
+            beyond3 += 1
+            ck.note("cell %s needs zone-facet coefficients beyond 3 (outside genBZG's candidate range; finding in design_notes/C22.md) -- skipped" % repr(c2)[:160])
+            continue
+        cases.append(res); found += 1
+    ck.extra["noreduce_sheared_cells"] = found
+    ck.extra["cells_with_facet_coefficient_beyond_3"] = sum(1 for c in cases if c.get("facets_beyond3"))
     good = [c for c in cases if "term" in c]
     codes = {}
     try:
@@ -226,7 +313,8 @@ def run(ck):
         ck.note("CORRESPONDENCE BROKEN: " + str(e)[:300])
     for c in cases:
         report(ck, c, codes.get(id(c)))
-    ck.extra["skipped"] = {"irrational-geometry": sg.pool.rejected}
+    ck.extra["skipped"] = {"irrational-geometry": sg.pool.rejected, "facet-coefficient-beyond-3": beyond3,
+                           "weights-not-judged-G-not-a-group": sum(1 for c in cases if c.get("group_closed") is False)}
     ck.extra["cases_checked_by_coq"] = len(codes)
     ck.extra["traces_validated_against_impl"] = len(codes)
     ck.extra["mesh_points_checked"] = sum(c.get("Nk", 0) for c in cases)
